@@ -252,14 +252,6 @@ func GenEdit(c *simrt.Chooser, b Buf, eol string) Edit {
 		e.L1, e.C1, e.L2, e.C2 = l, lens[l]+1+c.Choose("past-eol", 40), l, lens[l]+50
 		e.Shape = "start and end past end of line"
 	}
-	// An explicit range 0:0-0:0 triggers the open finding
-	// C01-zero-range-insert-replaces-document and ends marker tracking for the
-	// document; outside its dedicated shape it is mostly moved to the end of line 0
-	// so that the known defect does not swallow the search budget.
-	if e.HasRange && e.Shape != "insertion with empty range at 0:0" && e.L1 == 0 && e.C1 == 0 && e.L2 == 0 && e.C2 == 0 && c.Pct("avoid-zero-range", 90) {
-		e.C1, e.C2 = lens[0], lens[0]
-		e.Shape = "insertion at end of first line"
-	}
 	return e
 }
 
